@@ -111,6 +111,14 @@ func c10Case(limit int, t byte, body int64, position int, truncated bool, cuts [
 		if p, ok := sizedMsg(c, 'P', 4, eff, ""); ok {
 			msgs = append(msgs, p)
 		}
+	case 3: // while the session is discarding until Sync (an extended message failed just before)
+		if d, ok := sizedMsg(c, 'D', 3, eff, ""); ok {
+			d.S1 = "x" // Describe of a statement that does not exist
+			d.Tail = nil
+			if d.DeclaredBody() <= int64(eff) {
+				msgs = append(msgs, d)
+			}
+		}
 	}
 	if truncated && body > int64(eff) {
 		m.Pad = body
@@ -126,14 +134,14 @@ func c10Case(limit int, t byte, body int64, position int, truncated bool, cuts [
 		return c, true
 	}
 	msgs = append(msgs, m)
-	if strings.IndexByte("PBDECH", t) >= 0 || position == 2 {
+	if strings.IndexByte("PBDECH", t) >= 0 || position >= 2 {
 		msgs = append(msgs, pgwire.FMsg{K: "S"})
 	}
 	if okp && t != 'X' {
 		msgs = append(msgs, probe)
 	}
 	steps := []Step{{Msgs: []pgwire.FMsg{su}}}
-	if position == 2 || len(cuts)%2 == 1 {
+	if position >= 2 || len(cuts)%2 == 1 {
 		steps = append(steps, Step{Msgs: msgs}) // pipelined
 	} else {
 		for i := range msgs {
@@ -156,7 +164,7 @@ func c10Fixed(tier string) []*Case {
 	for _, L := range c10Limits(tier) {
 		for _, t := range c10Types {
 			for _, d := range []int64{-1, 0, 1} {
-				for pos := 0; pos < 3; pos++ {
+				for pos := 0; pos < 4; pos++ {
 					if c, ok := c10Case(L, t, int64(L)+d, pos, false, nil); ok {
 						c.Variant = "grid"
 						out = append(out, c)
@@ -252,7 +260,7 @@ func genC10(r *Rand, tier string) *Case {
 	if r.Chance(1, 8) && eff >= 64 && eff < 1<<20 {
 		return c10Copy(r, L, eff)
 	}
-	c, ok := c10Case(L, t, body, r.Intn(3), truncated, cuts)
+	c, ok := c10Case(L, t, body, r.Intn(4), truncated, cuts)
 	if !ok {
 		c, _ = c10Case(L, 'Q', int64(eff)+1, 0, false, cuts)
 	}
@@ -363,7 +371,7 @@ func checkC10(x *Exec, c *Case) ([]Violation, bool) {
 func init() {
 	register(&Prop{
 		ID: "C10", Level: "exploration", QuickS: 25, ThoroughS: 420,
-		Rule:       "enumerated boundary grid (limits {5,16,64,100,1000,4095,4096,4097,65536} x message types {Q,P,B,D,E,C,H,S,X,d,c,f,unknown} x declared body {L-1,L,L+1} x position {first, after a simple cycle, inside a pipelined extended batch}; startup packets and password messages of body {L-1,L,L+1,2L}; declared lengths 0-3 for five message types and the startup packet) plus seeded cases (the same dimensions with bodies 2L, 2L+1, 64 MiB, 2^31-5, 2^32-5, fully supplied by a synthetic pattern that spells valid protocol messages or cut short, default limit for a small share, arbitrary segmentation of the skipped body, oversized CopyData inside COPY mode); judged by the size-rule model (the ReadyForQuery after the 54000 error is optional here), 'no callback sees a byte of a skipped body', a per-step allocation bound of 4L+4MiB measured from runtime/metrics, and recovery of the following message; non-trivial = the case contains a message at or beyond the boundary; distinct = distinct case content hashes",
+		Rule:       "enumerated boundary grid (limits {5,16,64,100,1000,4095,4096,4097,65536} x message types {Q,P,B,D,E,C,H,S,X,d,c,f,unknown} x declared body {L-1,L,L+1} x position {first, after a simple cycle, inside a pipelined extended batch, while discarding after a failed extended message}; startup packets and password messages of body {L-1,L,L+1,2L}; declared lengths 0-3 for five message types and the startup packet) plus seeded cases (the same dimensions with bodies 2L, 2L+1, 64 MiB, 2^31-5, 2^32-5, fully supplied by a synthetic pattern that spells valid protocol messages or cut short, default limit for a small share, arbitrary segmentation of the skipped body, oversized CopyData inside COPY mode); judged by the size-rule model (the ReadyForQuery after the 54000 error is optional here), 'no callback sees a byte of a skipped body', a per-step allocation bound of 4L+4MiB measured from runtime/metrics, and recovery of the following message; non-trivial = the case contains a message at or beyond the boundary; distinct = distinct case content hashes",
 		Exhaustive: "the boundary grid listed in the rule is enumerated completely in both tiers",
 		Components: e1Components, Assumptions: commonAssumptions,
 		Fixed: c10Fixed,
